@@ -30,6 +30,10 @@ CHECKS = {
    text="check_config executed symbolically with interfaces/moves of symbolic length and cap/lambda_-1/quantis present or absent: every normal return satisfies Valid(cfg) from the property's own list and every rejection is a TOMLConfigError. Three defects found this way were repaired (fix: commit e5f38a1). Initialisation and fixed-point clauses not decided.",
    note="Engine sections explored for four concrete shapes; sorted(x)!=x and len(set(x))!=len(x) via their list-theoretic meaning (NaN-free floats).",
    design="5/C18"),
+ "C02": dict(level="other", technique="contract-based verification by path-complete symbolic execution of the REAL method objects (inf_retis, find_blocks, quick_prob, permanent_prob, fast_glynn_perm) on numpy object arrays of z3-backed reals (symnp); postconditions = permanent-ratio closed form, discharged by z3 nlsat per path",
+   text="For every enumerated shape (row order of the plus paths, staircase reach per path, busy subset, sh / wf / mixed weights) the real inf_retis is explored path-completely with symbolic positive weights and z3 proves P[i,j]*perm(W) == W[i,j]*perm(W minus i,j) on the idle block, P == 0 on busy rows/columns and the code's allclose asserts as exact identities; fast_glynn_perm == Leibniz permanent for k <= 4 (6 thorough). Complete in the weight values, bounded in the number of ensembles.",
+   note="Floats as exact reals; real numpy trusted; shapes N<=2 exhaustive + every 5th N=3 (quick), N<=3 exhaustive + every 3rd N=4 (thorough); random_prob excluded; the [0-] path is always in slot 0 (argued in props/C02.py).",
+   design="5/C02"),
 }
 NA = {
  "C01": "statistical convergence of an estimator over random histories; no pre/postcondition, invariant or lemma over function contracts expresses or decides it (DESIGN 5/C01). Its deterministic ingredients are decided under C02, C04, C09, C10.",
@@ -54,6 +58,7 @@ m = {
            "source_commits": [], "add_only": True},
  "engines": [
    {"name": "pyvc", "path": "pyvc/", "serves_properties": sorted(CHECKS), "kind_free_text": "E1: AST -> verification conditions for the real functions, z3/cvc5 back ends"},
+   {"name": "symnp", "path": "symnp/", "serves_properties": ["C02", "C16", "C20"], "kind_free_text": "E2: the real function objects executed on numpy object arrays of solver-backed scalars, forking on undecided comparisons (complete per shape)"},
  ],
  "checks": checks,
  "notes": "Exit codes of ./check: 0 held, 1 refuted obligation (VIOLATION line), 2 undecided only, 3 checker guard failure. Known findings: known_findings.json.",
